@@ -63,12 +63,15 @@ type callScript struct {
 	// OldSchema (with Dynamic): the client's copy of the schema predates the response fields: it receives them as
 	// unknown fields, which it keeps (and would forward) byte for byte
 	OldSchema bool
+	// CtxMD (streaming shapes): the handler sets / sends its metadata through grpc.SetHeader / SendHeader / SetTrailer on
+	// the stream's context - the only way open to code further down that is handed a context and no stream
+	CtxMD bool
 }
 
 func (s callScript) String() string {
 	return fmt.Sprintf("%s pre=%v serverMsgs=%q mid=%v code=%d msg=%q plain=%v failAfter=%d clientMsgs=%q cancelAfter=%d deadline=%v outMD=%v inMD=%v viaStream=%v withCause=%v",
 		s.Shape, s.PreOps, s.ServerMsgs, s.MidOps, s.Code, s.Msg, s.PlainErr, s.FailAfter, s.ClientMsgs, s.CancelAfter, s.Deadline, s.OutMD, s.InMD, s.ViaStream, s.WithCause) +
-		fmt.Sprintf(" dynamicMessages=%v oldSchema=%v", s.Dynamic, s.OldSchema)
+		fmt.Sprintf(" dynamicMessages=%v oldSchema=%v metadataViaContext=%v", s.Dynamic, s.OldSchema, s.CtxMD)
 }
 
 // the client's own copy of the test API's file descriptor
@@ -168,6 +171,14 @@ func (c ctxSetter) SetHeader(md metadata.MD) error  { return grpc.SetHeader(c.ct
 func (c ctxSetter) SendHeader(md metadata.MD) error { return grpc.SendHeader(c.ctx, md) }
 func (c ctxSetter) SetTrailer(md metadata.MD)       { _ = grpc.SetTrailer(c.ctx, md) }
 
+// setter: how this call's streaming handler reaches its headers and trailers.
+func (s *scriptedServer) setter(ss mdSetter, ctx context.Context) mdSetter {
+	if s.script.CtxMD {
+		return ctxSetter{ctx}
+	}
+	return ss
+}
+
 func applyOps(ss mdSetter, ops []mdOp) {
 	for _, op := range ops {
 		md := metadata.Pairs(op.K, op.V)
@@ -216,7 +227,7 @@ func (s *scriptedServer) ServerStream(req *testproto.ServerStreamRequest, ss grp
 		<-ss.Context().Done()
 		return status.FromContextError(ss.Context().Err()).Err()
 	}
-	applyOps(ss, sc.PreOps)
+	applyOps(s.setter(ss, ss.Context()), sc.PreOps)
 	for i := range sc.ServerMsgs {
 		if sc.FailAfter >= 0 && i >= sc.FailAfter {
 			break
@@ -230,7 +241,7 @@ func (s *scriptedServer) ServerStream(req *testproto.ServerStreamRequest, ss grp
 			return err
 		}
 		if i < len(sc.MidOps) {
-			applyOps(ss, sc.MidOps[i])
+			applyOps(s.setter(ss, ss.Context()), sc.MidOps[i])
 		}
 	}
 	return s.result()
@@ -240,7 +251,7 @@ func (s *scriptedServer) ClientStream(ss grpc.ClientStreamingServer[testproto.Cl
 	defer s.finish()
 	sc := s.script
 	s.note(ss.Context(), "", nil)
-	applyOps(ss, sc.PreOps)
+	applyOps(s.setter(ss, ss.Context()), sc.PreOps)
 	for {
 		m, err := ss.Recv()
 		if err == io.EOF {
@@ -261,7 +272,7 @@ func (s *scriptedServer) BidiStream(ss grpc.BidiStreamingServer[testproto.BidiSt
 	defer s.finish()
 	sc := s.script
 	s.note(ss.Context(), "", nil)
-	applyOps(ss, sc.PreOps)
+	applyOps(s.setter(ss, ss.Context()), sc.PreOps)
 	i := 0
 	for {
 		m, err := ss.Recv()
@@ -281,7 +292,7 @@ func (s *scriptedServer) BidiStream(ss grpc.BidiStreamingServer[testproto.BidiSt
 				return err
 			}
 			if i < len(sc.MidOps) {
-				applyOps(ss, sc.MidOps[i])
+				applyOps(s.setter(ss, ss.Context()), sc.MidOps[i])
 			}
 			i++
 		}
@@ -565,6 +576,7 @@ func genScript(t *rapid.T) callScript {
 	}
 	sc.InMD = rapid.IntRange(0, 2).Draw(t, "inMD") == 0
 	sc.WithCause = rapid.IntRange(0, 2).Draw(t, "withCause") == 0
+	sc.CtxMD = sc.Shape != "unary" && rapid.IntRange(0, 2).Draw(t, "metadataViaContext") == 1
 	switch sc.Shape {
 	case "unary":
 		sc.ClientMsgs = []string{rapid.SampledFrom([]string{"hello", ""}).Draw(t, "req")}
